@@ -86,6 +86,18 @@ class Consumer(object):
         e = self.b.params.get(pname)
         if e is None or isinstance(e, tuple):
             return None
+        # an explaining local for a row of a buffer (`first_sample = rvec_list[0, :]`) is looked through: one reaching definition, a plain subscript
+        if isinstance(e, ast.Name):
+            try:
+                defs = self.cfg.defs_reaching(self.call, e.id)
+            except Exception:
+                defs = []
+            if len(defs) == 1:
+                ds = self.cfg.ast_of(defs[0])
+                if isinstance(ds, ast.Assign) and len(ds.targets) == 1 and isinstance(ds.targets[0], ast.Name) and isinstance(ds.value, ast.Subscript) \
+                        and isinstance(ds.value.value, ast.Name) and isinstance(ds.value.slice, ast.Tuple) and ds.value.slice.elts \
+                        and isinstance(ds.value.slice.elts[0], ast.Constant):
+                    return ds.value             # (a constant row of a two-dimensional buffer only: `knew = order[i]` stays the name it is)
         return e
 
 
